@@ -217,7 +217,7 @@ def make_cube(pkg, with_unc=True):
     c.distance = 1.0 * u.kpc
     o = pkg['cube_order']
     if 'wav' in pkg:
-        c.wav = np.array(_ord(list(reversed(pkg['wav'])), o)) * u.micron
+        c.wav = (np.array(_ord(list(reversed(pkg['wav'])), o)) * u.micron).to(u.Unit(pkg.get('wav_unit', 'micron')))
     else:
         c.nu = np.array(_ord(pkg['nu'], o)) * u.Hz
     c.apertures = None if pkg['aps'] is None else np.array(pkg['aps']) * u.au
